@@ -107,8 +107,8 @@ Definition step_parts (dec : decoder) (s : pstate) (r : res (list N * params * l
                       | [] => {| stack := []; done := done s ++ [close f]; cache := cache s |}
                       | g :: r => {| stack := add_sub g (close f) :: r; done := done s; cache := cache s |}
                       end in
-            (* if vals.upper() == 'VTIMEZONE' and 'TZID' in component: tzp.cache_timezone_component(component) *)
-            if str_is (upper vals) "VTIMEZONE" && match dict_get (s2l "TZID") (f_props f) with Some _ => true | None => false end
+            (* if component.name == 'VTIMEZONE' and 'TZID' in component: tzp.cache_timezone_component(component) *)
+            if str_is (f_name f) "VTIMEZONE" && match dict_get (s2l "TZID") (f_props f) with Some _ => true | None => false end
             then match cache s1 with
                  | [] => Next s1            (* no recorded outcome left: the call is taken to return normally *)
                  | Ok _ :: c' => Next {| stack := stack s1; done := done s1; cache := c' |}
